@@ -74,7 +74,10 @@ Fixpoint sequential_links_ok (l : list (@entry NumF)) : bool :=
   end.
 Definition C01_struct (c : xcase) (r : list (@entry NumF)) (ag : nat) : bool :=
   if is_method c m_ws || is_method c m_owa || is_method c m_choquet then
-    list_eqb entry_same (ranking (map (fun e => (e_alt e, val e)) r)) r
+    (* the reported values are already rounded; rounding them again is not exactly idempotent on binary64 for
+       magnitudes above ~1e7, hence the comparison up to last-bit drift (ids, order and links exact) *)
+    (let rebuilt := ranking (map (fun e => (e_alt e, val e)) r) in
+     list_eqb entry_same rebuilt r || list_eqb entry_close rebuilt r)
   else if is_method c m_electre then
     forallb (fun e => list_eqb String.eqb (e_links e) (links_by_indices r e)) r
   else if is_method c m_aspect || is_method c m_satisfaction then sequential_links_ok r
@@ -127,7 +130,7 @@ Definition mkS e n p b a r af rf :=
 
 (* columns: 0 stage correspondence (0 agree, 1 model rejects/code accepts, 2 model accepts/code rejects,
    3 states differ, 4 reports differ, 10.. harness) | 1 inv after | 2 frame | 3 later stages did not rewrite the
-   state/report handed on (C09) | 4 C15 | 5 C16 | 6 C17 | 7 C18 | 8 C19 | 9 criteria changed only as reported (C07) *)
+   state/report handed on (C09) | 4 C15 | 5 C16 | 6 C17 | 7 C18 | 8 C19 | 9 criteria changed only as reported (C07) | 10 the report is what was handed on (C09) *)
 Definition judge_stage (c : scase) : list nat :=
   let m := apply_bias (s_env c) (s_name c) (s_before c) (s_props c) in
   let ag := match m, s_after c with
@@ -141,7 +144,7 @@ Definition judge_stage (c : scase) : list nat :=
                 else if negb (report_close rep (s_report c)) then 4 else 20
             end in
   match s_after c with
-  | None => [ag; 0; 0; 0; 0; 0; 0; 0; 0; 0]
+  | None => [ag; 0; 0; 0; 0; 0; 0; 0; 0; 0; 0]
   | Some a =>
       let nm := s_name c in let p := s_props c in let b := s_before c in let r := s_report c in
       [ ag;
@@ -153,7 +156,8 @@ Definition judge_stage (c : scase) : list nat :=
         if String.eqb nm b_fatigue then b2n (C17_ok (s_env c) p b a r) else 0;
         if String.eqb nm b_concealment || String.eqb nm b_mixing then b2n (C18_ok nm p b a r) else 0;
         if String.eqb nm b_anchoring then b2n (C19_ok (s_env c) p b a r) else 0;
-        b2n (crits_as_reported b a r) ]
+        b2n (crits_as_reported b a r);
+        b2n (report_faithful a r) ]
   end.
 
 (** ** level sources (component level) *)
@@ -204,3 +208,13 @@ Definition judge_cred (c : @state NumF * list (list float)) : list nat :=
       end
   | _ => [9]
   end.
+
+(** ** the name generator of the criterion-adding biases (component level): Criteria.NotUsedName against [not_used_name];
+    codes: column 0 correspondence (0 same, 3 different), column 1 the generated id is already in use (C18: "an id not used before") *)
+From RDM Require Import Model.Biases.
+Definition mkNC (ids : list string) (name : string) (obs : string) := (ids, name, obs).
+Definition judge_name (c : list string * string * string) : list nat :=
+  let '(ids, name, obs) := c in
+  let cs := map (fun i => {| c_id := i; c_type := TGain; c_range := (None : option (float * float)) |}) ids in
+  [ if String.eqb (@not_used_name NumF cs name) obs then 0 else 3;
+    if mem_str obs ids then 1 else 0 ].
